@@ -57,7 +57,9 @@ PLUGIN_UNITS = ["[a(b)]", "[a(b)c(d)]", "[^a]", "[^a] ", "$a$", "$a$ ", ">!a!<",
 DATA_KEYS = ["World Wide Web", "World  Wide   Web", "World Wide\n    Web Consortium", "A\tB\t\tC", "a a a a", "ab", "x.y*"]
 DATA_PUMPS = [("*[%s]: t\n*[%s]: t2\n\nThe %s" % (k, k.split()[0], " ".join(k.split()[:j])), u, "x\n")
               for k in DATA_KEYS for j in range(1, len(k.split()) + 1) for u in ((" ", "\t", " " + k.split()[0]) if j < len(k.split()) else (" ", k.split()[0][:1]))]
-CLASSIC = [("", u, "") for u in PLUGIN_UNITS] + [("", u, "\n\n[r]: /u\n[^a]: n\n*[A]: x\n") for u in PLUGIN_UNITS[:12]] + DATA_PUMPS + [
+# lazy continuation lines below nested containers (each line is looked at by every open container)
+LAZY_PUMPS = [(pre, unit, "") for pre in (">>", "> > ", ">>>", "> > > > ", "> - ", "- > ", "1. > - ", "> > - > ", ">! >! ") for unit in ("a\n", "a b\n", "*a\n")]
+CLASSIC = LAZY_PUMPS + [("", u, "") for u in PLUGIN_UNITS] + [("", u, "\n\n[r]: /u\n[^a]: n\n*[A]: x\n") for u in PLUGIN_UNITS[:12]] + DATA_PUMPS + [
     ("[a](b \"", "\\!", ""), ("[a]: /u '", "\\'", ""), ("[", "\\a", ""), ("[", "\\a", "] x"), ("[^", "\\a", ""), ("a", " ", "b"), ("a", "\t", "b"), ("", "a ", "\n"),
     ("", "[", ""), ("", "![", ""), ("", "[a](", ""), ("", "*a ", ""), ("", "**a ", ""), ("", "_a_", ""), ("", "*", "a"), ("", "`", "a"), ("", "` `` ", ""), ("", "<", ""),
     ("", "<a ", ""), ("<a", " b", ""), ("<a b=\"", "c ", ""), ("<!--", "-", ""), ("", "&", ""), ("", "&a", ""), ("", "\\", ""), ("", "> ", "x"), ("", "- ", "x"),
@@ -276,7 +278,7 @@ def oracle(ctx, extra):
                 seen.add(pump)
                 jobs.append(("model:%s" % name, pump))
     # 2. classic shapes
-    npu = len(PLUGIN_UNITS) + 12 + len(DATA_PUMPS)
+    npu = len(LAZY_PUMPS) + len(PLUGIN_UNITS) + 12 + len(DATA_PUMPS)
     classic = CLASSIC if not ctx.quick else CLASSIC[:npu] + r.sample(CLASSIC[npu:], 40)
     for pump in classic:
         jobs.append(("classic", pump))
@@ -322,7 +324,7 @@ def oracle(ctx, extra):
     return {"evaluations": n, "distinct_nontrivial": n, "failures": fails, "input_distribution": dist,
             "model_pump_evaluations": n_model, "model_note": model_note, "model_character_tests": steps, "model_candidates": [[round(g, 1), nm, list(p)] for g, nm, p in cands[:15]],
             "rule": "pumps prefix + unit^n + suffix: (1) super-quadratic candidates from the counting model (every repeat of every pattern, "
-                    "sizes 5/10, 10/20, 24/48) in 10 prefix contexts and 15 (before, after) contexts; (2) %d classic shapes, among them a run of whole tokens of every inline plugin syntax and pumps below abbreviation definitions whose keys hold white-space runs (the abbreviation scanner is compiled from document data); (3) sampled units of one or two of %d Markdown tokens with "
+                    "sizes 5/10, 10/20, 24/48) in 10 prefix contexts and 15 (before, after) contexts; (2) %d classic shapes, among them lazy continuation lines below nested containers, a run of whole tokens of every inline plugin syntax and pumps below abbreviation definitions whose keys hold white-space runs (the abbreviation scanner is compiled from document data); (3) sampled units of one or two of %d Markdown tokens with "
                     "%d prefixes and %d suffixes; each under the configurations core / all plugins / all+speedup / rst, fenced and colon "
                     "directive mixes (sampled pumps: one configuration); CPU time in isolated workers at n, 2n, 4n with n chosen so that "
                     "t(n) >= 20 ms, ratio budget 40 confirmed at 8n/2n, absolute budget 10 s per 5000 characters"
